@@ -14,7 +14,8 @@ def showStatsSpec (q : Spec.StatsSpec) : String :=
   s!"nc={q.nContainers} na={q.nArray} nr=0 nb={q.nBitset} va={q.valuesArray} vr=0 vb={q.valuesBitset} card={q.cardinality} min={showOpt q.minValue} max={showOpt q.maxValue} ssz={q.serializedSize}"
 
 def showDebug (s : String) : String :=
-  s!"ok n={s.utf8ByteSize} h={hex64 (fnv (s.toUTF8.toList.map (·.toNat)))}"
+  let form := if (s.splitOn " values between ").length > 1 then "summary" else "list"
+  s!"ok n={s.utf8ByteSize} h={hex64 (fnv (s.toUTF8.toList.map (·.toNat)))} f={form}"
 
 def parseSlot64 (pfx : Char) (t : String) : Option Nat := (parseSlot pfx t).filter (· < 64)
 
